@@ -31,7 +31,7 @@ ASSUMPTIONS = [
 ]
 CONFIG = {
     "quick": {"examples": 64, "shards": 16, "shrink_s": 60, "time_budget_s": 280},
-    "thorough": {"examples": 600, "shards": 16, "shrink_s": 240, "time_budget_s": 1500},
+    "thorough": {"examples": 800, "shards": 16, "shrink_s": 240, "time_budget_s": 1500},
 }
 
 
